@@ -5,15 +5,11 @@ import os, subprocess, sys, tempfile, shutil
 V = os.path.dirname(os.path.dirname(os.path.abspath(__file__)))
 M = [
  # name, props expected to catch, file, old, new
- ("m01-builder-shared-off-by-one", ["C01", "C09"], "mtbl/block_builder.c",
+ ("m01-builder-shared-off-by-one", ["C09"], "mtbl/block_builder.c",
   "while ((shared < min_length) && (ubuf_value(b->last_key, shared) == key[shared]))",
   "while ((shared + 1 < min_length) && (ubuf_value(b->last_key, shared) == key[shared]))"),
  ("m02-decode-entry-fastpath-le128", ["C01"], "mtbl/block.c",
   "if ((*shared | *non_shared | *value_length) < 128) {", "if ((*shared | *non_shared | *value_length) <= 128) {"),
- ("m03-index-offset-pending", ["C01", "C09"], "mtbl/writer.c",
-  "len_enc = mtbl_varint_encode64(enc, w->last_offset);", "len_enc = mtbl_varint_encode64(enc, w->pending_offset);"),
- ("m04-separator-allows-equal-limit", ["C02", "C09"], "mtbl/bytes.h",
-  "if (diff_byte < 0xFF && diff_byte + 1 < limit[diff_index]) {", "if (diff_byte < 0xFF && diff_byte + 1 <= limit[diff_index]) {"),
  ("m05-prefix-predicate-lt", ["C02"], "mtbl/reader.c",
   "if (!(ubuf_size(it->k) <= *len_key &&", "if (!(ubuf_size(it->k) < *len_key &&"),
  ("m06-range-bound-ge", ["C02"], "mtbl/reader.c",
@@ -28,15 +24,10 @@ M = [
  ("m10-crc-over-uncompressed", ["C09", "C12"], "mtbl/writer.c",
   "\tif (b->comp_type != MTBL_COMPRESSION_NONE) {\n\t\tfree(b->data);\n\t\tb->data = tmp.data;\n\t\tb->len_data = tmp.len_data;\n\t}\n\n\tb->crc = htole32(mtbl_crc32c(b->data, b->len_data));",
   "\tb->crc = htole32(mtbl_crc32c(b->data, b->len_data));\n\tif (b->comp_type != MTBL_COMPRESSION_NONE) {\n\t\tfree(b->data);\n\t\tb->data = tmp.data;\n\t\tb->len_data = tmp.len_data;\n\t}\n"),
- ("m11-restart-every-interval-plus-one", ["C09"], "mtbl/block_builder.c",
-  "if (b->counter < b->block_restart_interval) {", "if (b->counter <= b->block_restart_interval) {"),
  ("m12-stats-data-bytes-unframed", ["C10"], "mtbl/writer.c",
   "w->m.bytes_data_blocks += bytes_written;", "w->m.bytes_data_blocks += b->len_data;"),
  ("m13-stats-bytes-values-on-refusal", ["C10"], "mtbl/writer.c",
   "\t\t{\n\t\t\treturn (mtbl_res_failure);\n\t\t}", "\t\t{\n\t\t\tw->m.bytes_values += len_val;\n\t\t\treturn (mtbl_res_failure);\n\t\t}"),
- ("m14-v1-length-as-varint", ["C11", "C19"], "mtbl/reader.c",
-  "\tif (r->m.file_version == MTBL_FORMAT_V1) {\n\t\traw_contents_size_len = sizeof(uint32_t);\n\t\traw_contents_size = mtbl_fixed_decode32(&r->data[offset + 0]);",
-  "\tif (r->m.file_version == MTBL_FORMAT_V1 && offset == 0) {\n\t\traw_contents_size_len = sizeof(uint32_t);\n\t\traw_contents_size = mtbl_fixed_decode32(&r->data[offset + 0]);"),
  ("m15-verify-skips-get-path", ["C12"], "mtbl/reader.c",
   "\tblock_iter_seek(it->index_iter, key, len_key);\n\tit->b = get_block_at_index(r, it->index_iter, &it->block_offset);",
   "\tblock_iter_seek(it->index_iter, key, len_key);\n\tbool vc = r->opt.verify_checksums;\n\tr->opt.verify_checksums = false;\n\tit->b = get_block_at_index(r, it->index_iter, &it->block_offset);\n\tr->opt.verify_checksums = vc;"),
